@@ -25,7 +25,7 @@ import traceback
 
 import numpy as np
 
-from lib import Checker, digest, euler_zyz
+from lib import Checker, digest, euler_zyz, fork_call
 
 PROPERTY = "C11"
 RULE = ("model:* cases = structure x every subset of <= K sites x every set "
@@ -369,7 +369,60 @@ def cases(tier, seed):
                     "layout": lay["id"]})
     for i, (name, _) in enumerate(_rt_alphabet()):
         out.append({"id": "rt:" + name, "kind": "rt", "i": i})
+    # histories: models of different classes built one after the other in
+    # one interpreter expose the same parameters as in a pristine one
+    refs = {}
+    for name in HIST_OPS:
+        st, val = fork_call(_hist_op, name, timeout=120)
+        refs[name] = val if st == "ok" else "FAILED:%s:%r" % (st, val)
+    L = 2 if tier == "quick" else 3
+    for n in range(2, L + 1):
+        for seq in itertools.product(list(HIST_OPS), repeat=n):
+            out.append({"id": "hist:" + ">".join(seq), "kind": "hist",
+                        "seq": list(seq),
+                        "ref": {o: refs[o] for o in seq}})
     return out
+
+
+HIST_OPS = {
+    "alpha-prior": ("sphere", ["n", "alpha"]),
+    "alpha-fixed": ("sphere", ["n", "r"]),
+    "exact": ("sphere-exact", ["n", "r"]),
+    "exact-noise": ("sphere-exact", ["r", "noise_sd"]),
+    "cluster-alpha": ("spheres2", ["0:r", "1:r", "alpha"]),
+}
+
+
+def _hist_op(name):
+    sname, sites = HIST_OPS[name]
+    b = _build(_prog(sname, sites, range(len(sites))))
+    m = b.model
+    vals = [PRIMES[i] for i in range(len(m.parameters))]
+    sc = m.scatterer_from_parameters(vals)
+    return repr((list(m.parameters), sorted(m._maps),
+                 _canon_map(m._maps["model"]), _canon_map(m._maps["optics"]),
+                 repr(sc)))
+
+
+def _run_hist(case, cs):
+    outs = []
+    for i, name in enumerate(case["seq"]):
+        ref = case["ref"][name]
+        if str(ref).startswith("FAILED"):
+            cs.bad("api-exception", "%s failed in a pristine interpreter: "
+                   "%s" % (name, ref))
+            return "ref-failed", {}
+        try:
+            got = _hist_op(name)
+        except Exception as e:                 # noqa
+            got = "EXC:%s:%s" % (type(e).__name__, e)
+        cs.ck.trans += 1
+        cs.ok("history-independent", got == ref, "step %d (%s) of %s: the "
+              "model exposes %s; the same construction in a pristine "
+              "interpreter gives %s" % (i + 1, name, ">".join(case["seq"]),
+                                        got[:300], str(ref)[:300]))
+        outs.append(got)
+    return digest(*outs), {}
 
 
 # --------------------------------------------------------------------------
@@ -1122,6 +1175,13 @@ def _tie_layouts(tier):
         out.append({"id": "wide:k=%d" % k, "k": k, "refuse_max": 3,
                     "prog": _prog("spheres2", wide_sites,
                                   range(len(wide_sites)), eq=eq)})
+    # the same sphere with its centre given as a TUPLE (the exact model has
+    # no scaling: the unequal parameter is the lens angle)
+    for k in range(2, kmax + 1):
+        sites = ["n", "r", "center.0", "center.1", "center.2"][:k] + \
+            ["lens_angle"]
+        out.append({"id": "sphere-tuple:k=%d" % k, "k": k, "prog": _prog(
+            "sphere-exact", sites, range(k + 1), eq=[0] * k + [1])})
     for k in range(4, kmax + 1):
         # two groups of equal priors (k-2 and 2) interleaved
         sites = ["n", "r", "center.0", "center.1", "center.2"][:k]
@@ -1761,7 +1821,8 @@ def run_case(case):
     cs = Case()
     kind = case["kind"]
     fn = {"model": _run_model, "rigid": _run_rigid, "cross": _run_cross,
-          "tie": _run_tie, "rt": _run_rt, "many": _run_many}[kind]
+          "tie": _run_tie, "rt": _run_rt, "many": _run_many,
+          "hist": _run_hist}[kind]
     fp, extra = fn(case, cs)
     res = cs.ck.result(fp=fp)
     res["extra"] = extra
